@@ -559,8 +559,8 @@ M("c07-call-reenters-full-loop-again", ["C07", "C08"], VM,
   "        self._invoke_js_function(func, args, this_val)\n        return self._execute()\n",
   [("C07", "C07-R3$", "reenters-full-loop"), ("C08", "C08-R6", "reenters-full-loop")])
 M("c07-signal-swallowed-by-native", ["C07"], VM,
-  "            for i, elem in enumerate(arr._elements):\n                vm._call_callback(callback, [elem, i, arr])\n            return UNDEFINED\n",
-  "            for i, elem in enumerate(arr._elements):\n                try:\n                    vm._call_callback(callback, [elem, i, arr])\n                except Exception:\n                    break\n            return UNDEFINED\n",
+  "            for i, elem in visited_elements():\n                vm._call_callback(callback, [elem, i, arr])\n            return UNDEFINED\n",
+  "            for i, elem in visited_elements():\n                try:\n                    vm._call_callback(callback, [elem, i, arr])\n                except Exception:\n                    break\n            return UNDEFINED\n",
   [("C07", "C07-R3c", "forEach_fn")])
 M("c04-signal-not-caught-by-wrapper", ["C04", "C07"], VM,
   "        except _PendingThrow as pending:\n            # A callback run by a native threw past it: the native is unwound,\n            # look for the handler again from this run loop\n            self._throw(pending.value)\n",
